@@ -43,6 +43,21 @@ def main():
             r = sh(['git', 'cherry-pick', '--no-commit', c], t)
             if r.returncode != 0:
                 conf = sh(['git', 'diff', '--name-only', '--diff-filter=U'], t).stdout.split()
+                gen = {'interp/arith.go': 'interp/arith.go.y', 'parser/parser.go': 'parser/parser.go.y'}
+                if conf and all(f in gen and gen[f] not in conf for f in conf):
+                    # only the generated file conflicts: regenerate it from the merged grammar
+                    for f in conf:
+                        dd, y = os.path.split(gen[f])
+                        sh(['/verif/bin/goyacc', '-l', '-o', os.path.basename(f), y], os.path.join(t, dd), check=True)
+                        if os.path.exists(os.path.join(t, dd, 'y.output')):
+                            os.remove(os.path.join(t, dd, 'y.output'))
+                        sh(['git', 'add', f], t, check=True)
+                    diff = sh(['git', 'diff', '--cached', head], t).stdout
+                    shutil.copy(p, os.path.join(d, 'patch.%s.diff' % base[:7]))
+                    open(p, 'w').write(diff)
+                    sh(['git', 'reset', '-q', '--hard', head], t)
+                    print('%-14s rebased from %s (generated file regenerated)' % (name, base[:7]))
+                    continue
                 print('%-14s CONFLICT (base %s) in %s' % (name, base[:7], ' '.join(conf)))
                 sh(['git', 'cherry-pick', '--abort'], t); sh(['git', 'reset', '-q', '--hard', head], t)
                 continue
